@@ -651,7 +651,8 @@ def run_markup(ctx, model_ok=True):
         'partial': [],
         'by_construction': ['formatters return plain values (no res, no fuel): proofs/SafeFormat.v'],
         'not_in_model(implementation oracle only)': ['lorem text generation',
-                                                     'user callbacks other than the identity', 'CPython recursion limit (known finding)'],
+                                                     'user callbacks other than the identity', 'CPython recursion limit (known finding)',
+                                                     'digit runs beyond CPython int conversion limit (model numbers are unbounded)'],
     }
     # ---- correspondence with the extracted model
     model = ctx.model('markup') if model_ok else None
